@@ -390,7 +390,7 @@ fn main() {
     let len3 = if args.is_thorough() { 5 } else { 4 };
     let len1 = 8;
     let n_random = match args.tier.as_str() {
-        "miri" => 5,
+        "miri" => 10,
         "tsan" => 100,
         _ => args.size(60_000, 3_000_000),
     };
